@@ -47,8 +47,8 @@ TRUSTED = [
     'by replacing the module global `np` with a recording proxy for the duration of the call',
     'axioms under Print Assumptions: the classical real numbers of the standard library (ClassicalDedekindReals.sig_forall_dec, '
     'sig_not_dec, FunctionalExtensionality.functional_extensionality_dep, Classical_Prop.classic) for every theorem over R; '
-    'additionally, for C15_pi_and_e_are_the_nearest_doubles only, the Uint63/PrimInt63 primitive-integer specifications that '
-    'Interval computes with',
+    'the run-time Interval certificates (case files, not Props) additionally rest on the Uint63/PrimInt63 primitive-integer '
+    'specifications Interval computes with',
     'modelled, not verified: numpy/libm accuracy and IEEE rounding (certified point-wise, not for all arguments), numpy complex '
     'continuations (checked by identities only), np.linalg.det/norm algorithms, inspect.signature / ufunc.nin (arity oracle), '
     'the text numpy passes to the seterr callback, Python min/max on floats',
@@ -733,8 +733,8 @@ def in_exact_stream(c, obs, index, thorough):
     if obs['status'] != 'ret':
         return True
     if c['fname'] in SCALAR_LOCAL:
-        return thorough or index % 3 == 0
-    return index % (4 if thorough else 16) == 0
+        return thorough or index % 4 == 0
+    return index % (4 if thorough else 24) == 0
 
 
 def case_key(c):
@@ -811,7 +811,7 @@ def run(ctx):
             if g is not None:
                 goals.append(({'table': c['table'], 'fname': 'arctan2', 'args': c['args'], 'value': repr(obs['value'])}, g))
     # quick tier: bound the number of Interval goals (deterministic thinning), the oracle still saw every case
-    cap = 2400 if thorough else 800
+    cap = 2400 if thorough else 560
     if len(goals) > cap:
         step = len(goals) / float(cap)
         goals = [goals[int(i * step)] for i in range(cap)]
